@@ -504,6 +504,7 @@ func (c03) Plan(tier string) []fw.Unit {
 			us = append(us, fw.Unit{Check: "C03", Kind: "enum", Tier: tier, Spec: fw.Spec(enumSpec{Cfg: i, Shard: s, Shards: shards})})
 		}
 	}
+	us = append(us, fw.Unit{Check: "C03", Kind: "text", Tier: tier, Spec: fw.Spec(enumSpec{})})
 	return us
 }
 
@@ -515,6 +516,13 @@ func c03Sig(cfg c03Cfg, col string, vals []ref.Val) string {
 }
 
 func (c03) Run(u fw.Unit) fw.Result {
+	if u.Kind == "text" {
+		maxL := 4
+		if u.Tier == "thorough" {
+			maxL = 5
+		}
+		return textAggUnit("C03", "det-agg-text", "SELECT k, %s FROM stream GROUP BY k, CountingWindow(%d)", maxL)
+	}
 	sp := parseEnum(u)
 	cfg := c03Configs(u.Tier)[sp.Cfg]
 	a := newAcc("C03", "det-agg-"+cfg.Query)
